@@ -1,7 +1,7 @@
 """C01 correspondence: intersection of two flat primitives, real code vs the proven Lean model.
 All 25 ordered type pairs in constructed relative positions; compared by denotation."""
 import random, json
-from .. import core, gen, compare, admit
+from .. import core, gen, compare, admit, interlib
 from ..gen import Gen, tok, FLATS
 
 PAIRS = [(a, b) for a in FLATS for b in FLATS]
@@ -39,7 +39,7 @@ def work(args):
 
 def observe(impl, A, B):
     try:
-        a, b = impl.build(A), impl.build(B)
+        a, b = interlib.build_pair(impl, A, B)      # primed in-place move / shared-Point decoys for a third of the cases
     except Exception as e:
         return ('ctor-exc', type(e).__name__)
     r = core.guarded(impl.call, impl.intersection, a, b)
